@@ -5,7 +5,7 @@
     nothing held). *)
 From Coq Require Import List ZArith String Bool Arith Lia.
 From Thunder Require Import Lib.Json DiffMerge.Model Server.Model Server.Spec Server.Proofs Server.ProofsLife
-     Server.ProofsConv Server.ProofsC02 Server.ProofsC17 Server.Product.
+     Server.ProofsConv Server.ProofsC02 Server.ProofsC17 Server.Iface Server.Product.
 From Thunder Require Reactive.Graph Reactive.Rerunner Reactive.ProofsBase Reactive.ProofsMutex.
 From Thunder Require Props.C04 Props.C08.
 Import ListNotations.
@@ -221,12 +221,13 @@ Qed.
 
 Definition coh (w : world) (r : nat) (o : option runner) (x : RR.rr) : Prop :=
   match o with
-  | None => RR.r_stop x = false /\ RR.r_failed x = false /\ RR.r_out x = None
+  | None => RR.r_stop x = false /\ RR.r_failed x = false /\ RR.r_out x = None /\ RR.r_comp x = None
   | Some ru =>
       (RR.r_stop x = true <-> r_stat ru = Stopped) /\
       (r_stat ru = Live -> RR.r_failed x = false) /\
       (r_stat ru = Failed -> RR.r_failed x = true) /\
       (r_stat ru = Stopped -> RR.r_comp x = None) /\
+      (r_stat ru <> Stopped -> (RR.r_comp x = None <-> RR.r_out x = None)) /\
       match r_kind ru with
       | KSub => match RR.r_out x with
                 | Some out => r_initial ru = false /\ r_prev ru = w_render w r out
@@ -291,16 +292,18 @@ Proof.
       * cbn in Ef. apply andb_true_iff in Ef. destruct Ef as [Ef C4]. apply andb_true_iff in Ef. destruct Ef as [Ef C3].
         apply andb_true_iff in Ef. destruct Ef as [C1 C2].
         apply oout_eqb_eq in C3. apply onat_eqb_eq in C4. apply Bool.eqb_prop in C2.
-        destruct Hc as (H1 & H2 & H3 & H4 & H5). unfold coh. cbn [r_stat r_kind r_initial r_prev set_stat].
+        destruct Hc as (H1 & H2 & H3 & H4 & H4' & H5). unfold coh. cbn [r_stat r_kind r_initial r_prev set_stat].
         split; [split; auto|]. split; [discriminate|]. split; [discriminate|]. split; [auto|].
+        split; [intros X; contradiction X; reflexivity|].
         rewrite <- C3. exact H5.
     + (* the connection created it *)
       rewrite E0 in Hc. rewrite E2.
       assert (A : alive_in sv r && stopped_in sv' r = false) by (unfold alive_in; rewrite E0; reflexivity).
       rewrite A in Ef. destruct (iev_of (RR.getr rx r) (RR.getr rx' r)) eqn:Ev; try discriminate.
-      destruct (iev_none _ _ Ev) as (A1 & A2 & A3 & A4). destruct Hc as (H1 & H2 & H3).
-      unfold coh. cbn [r_stat r_kind r_initial r_prev]. rewrite A1, A2, A3, H1, H2, H3.
+      destruct (iev_none _ _ Ev) as (A1 & A2 & A3 & A4). destruct Hc as (H1 & H2 & H3 & H3').
+      unfold coh. cbn [r_stat r_kind r_initial r_prev]. rewrite A1, A2, A3, A4, H1, H2, H3, H3'.
       split; [split; discriminate|]. split; [auto|]. split; [discriminate|]. split; [discriminate|].
+      split; [intros _; split; reflexivity|].
       destruct k; reflexivity.
   - (* a step of the reactive package *)
     destruct (is_stop_label l); [discriminate|].
@@ -325,10 +328,11 @@ Proof.
            destruct (iev_pub _ _ _ Ev0) as (A1 & A2 & A3 & A4).
            unfold sub_live_in in Sl. rewrite (do_run_runner _ _ _ _ Er) in Sl.
            unfold run_runner in *. destruct (r_kind ru) eqn:K; [|unfold is_live in Sl; cbn in Sl; discriminate].
-           destruct Hc as (H1 & H2 & H3 & H4 & H5). unfold coh. cbn [r_stat r_kind r_initial r_prev].
+           destruct Hc as (H1 & H2 & H3 & H4 & H4' & H5). unfold coh. cbn [r_stat r_kind r_initial r_prev].
            assert (St : r_stat ru = Live) by (unfold is_live in Li; destruct (r_stat ru); congruence).
            rewrite A1, A2, A3. split; [split; [intros X; apply H1 in X; congruence | discriminate]|].
-           split; [auto|]. split; [discriminate|]. split; [discriminate|]. auto.
+           split; [auto|]. split; [discriminate|]. split; [discriminate|].
+           split; [intros _; split; [intros X; contradiction | discriminate]|]. auto.
         -- rewrite (do_run_other _ _ _ _ _ Hne).
            pose proof (Iother r (proj2 (in_seq0 r _) Hr) Hne) as Ev.
            destruct (iev_none _ _ Ev) as (A1 & A2 & A3 & A4). eapply coh_same; eauto.
@@ -348,9 +352,10 @@ Proof.
            { unfold run_runner in *. destruct (r_kind ru); [|reflexivity].
              destruct oc; [cbn in Fl; discriminate | | reflexivity].
              destruct (r_initial ru); [reflexivity|]. rewrite St in Fl. discriminate. }
-           rewrite Rr. destruct Hc as (H1 & H2 & H3 & H4 & H5). unfold coh. cbn [r_stat r_kind r_initial r_prev set_stat].
-           rewrite A1, A3, A4. split; [split; [intros X; apply H1 in X; congruence | discriminate]|].
-           split; [discriminate|]. split; [auto|]. split; [discriminate|]. exact H5.
+           rewrite Rr. destruct Hc as (H1 & H2 & H3 & H4 & H4' & H5). unfold coh. cbn [r_stat r_kind r_initial r_prev set_stat].
+           rewrite A1, A3, A4, A5. split; [split; [intros X; apply H1 in X; congruence | discriminate]|].
+           split; [discriminate|]. split; [auto|]. split; [discriminate|].
+           split; [intros _; apply H4'; congruence|]. exact H5.
         -- rewrite (do_run_other _ _ _ _ _ Hne).
            pose proof (Iother r (proj2 (in_seq0 r _) Hr) Hne) as Ev.
            destruct (iev_none _ _ Ev) as (A1 & A2 & A3 & A4). eapply coh_same; eauto.
@@ -424,7 +429,7 @@ Proof.
   assert (G : Good w (sv, rx)) by (eapply prun_Good; [apply Good_init | exact Hrun]).
   pose proof (created_in_pool _ _ _ _ G Hr) as Hp.
   destruct G as [(HL & Hn & Hc) Gs Gr]. cbn [fst snd] in *.
-  specialize (Hc rid Hp). rewrite Hr in Hc. destruct Hc as (H1 & H2 & H3 & H4 & H5). rewrite K in H5.
+  specialize (Hc rid Hp). rewrite Hr in Hc. destruct Hc as (H1 & H2 & H3 & H4 & H4' & H5). rewrite K in H5.
   assert (Len : rid < List.length (RR.s_rrs rx)).
   { rewrite (rrs_length _ _ Gr). unfold RR.init. cbn. rewrite map_length. exact Hp. }
   destruct (Thunder.Props.C04.published_output_is_current _ _ _ _ Gr Q Len Cn (H2 St)) as [out [O1 O2]].
@@ -488,7 +493,7 @@ Proof.
   unfold stopped_in in S'. destruct (st_runners (fst p') rid) as [ru|] eqn:Er; [|discriminate].
   pose proof (created_in_pool _ _ _ _ G' Er) as Hp.
   destruct G' as [(HL & Hn & Hc) Gs Gr].
-  specialize (Hc rid Hp). rewrite Er in Hc. destruct Hc as (H1 & H2 & H3 & H4 & H5).
+  specialize (Hc rid Hp). rewrite Er in Hc. destruct Hc as (H1 & H2 & H3 & H4 & H4' & H5).
   apply is_stopped_stat in S'. pose proof (proj2 H1 S') as St.
   assert (Len : rid < List.length (RR.s_rrs (snd p'))).
   { rewrite (rrs_length _ _ Gr). unfold RR.init. cbn. rewrite map_length. exact Hp. }
@@ -575,7 +580,101 @@ Theorem previous_is_published_l : forall w p rid ru, preachable w p ->
 Proof.
   intros w p rid ru R Hr K. pose proof (preachable_Good _ _ R) as G.
   pose proof (created_in_pool _ _ _ _ G Hr) as Hp. destruct G as [(HL & Hn & Hc) Gs Gr].
-  specialize (Hc rid Hp). rewrite Hr in Hc. destruct Hc as (_ & _ & _ & _ & H5). rewrite K in H5.
+  specialize (Hc rid Hp). rewrite Hr in Hc. destruct Hc as (_ & _ & _ & _ & _ & H5). rewrite K in H5.
   destruct (RR.r_out (RR.getr (snd p) rid)); [exact H5|]. split; [exact H5|].
   destruct Gs as [h Hh]. eapply initial_prev_null; eassumption.
+Qed.
+
+(** * Both sides of the product agree on the interface trace (Server/Iface.v) *)
+
+Lemma had_comp_coh w r ru x : coh w r (Some ru) x -> r_stat ru <> Stopped -> is_some (RR.r_comp x) = had_comp ru.
+Proof.
+  intros (H1 & H2 & H3 & H4 & H4' & H5) Ns. specialize (H4' Ns). unfold had_comp.
+  destruct (r_kind ru).
+  - destruct (RR.r_out x) as [out|] eqn:Eo.
+    + destruct H5 as [Hi _]. rewrite Hi. destruct (RR.r_comp x); [reflexivity|].
+      destruct H4' as [A _]. specialize (A eq_refl). discriminate.
+    + rewrite H5. rewrite (proj2 H4' eq_refl). reflexivity.
+  - rewrite (proj2 H4' H5). reflexivity.
+Qed.
+
+Lemma rx_ev_none x y : iev_of x y = INone -> rx_ev x y = None.
+Proof.
+  intros E. destruct (iev_none _ _ E) as (A1 & _). unfold rx_ev. rewrite E, A1.
+  destruct (RR.r_stop x); reflexivity.
+Qed.
+
+(** In every step of the product, what the reactive side does to rerunner [r] - read off its records in the
+    vocabulary of the hooks of reactive/rerunner.go - is what Server/Iface.v derives from the connection's
+    step: the same event with the same flag, or none on both sides. *)
+Theorem interface_agrees_l : forall w p pl p' r,
+  preachable w p -> pstep w p pl = Some p' -> r < pool w ->
+  rx_ev (RR.getr (snd p) r) (RR.getr (snd p') r) =
+  match plabel_server w p pl with
+  | Some l => sv_ev (fst p) l (fst p') r
+  | None => None
+  end.
+Proof.
+  intros w [sv rx] pl [sv' rx'] r R H Hr.
+  pose proof (preachable_Good _ _ R) as [(HL & Hn & Hc) _ _]. cbn [fst snd] in *.
+  specialize (Hc r Hr). unfold pstep in H. destruct pl as [l|l o]; cbn [plabel_server snd].
+  - destruct (is_run_label l) eqn:Il; [discriminate|].
+    destruct (step (w_cfg w) sv l) as [sv1|] eqn:E; [|discriminate].
+    destruct (stop_all rx (newly_stopped sv sv1)) as [rx1|]; [|discriminate].
+    destruct (Nat.leb (st_next sv1) (pool w)); [|discriminate]. cbn [andb] in H.
+    destruct (forallb _ _) eqn:Ef; [|discriminate]. inversion H; subst; clear H.
+    rewrite forallb_forall in Ef. specialize (Ef r (proj2 (in_seq0 r _) Hr)). unfold server_sync in Ef.
+    assert (Sv : sv_ev sv l sv' r =
+                 if alive_in sv r && stopped_in sv' r
+                 then match st_runners sv r with Some ru => Some (XStop (had_comp ru)) | None => None end else None).
+    { destruct l; try reflexivity. discriminate Il. }
+    rewrite Sv. destruct (alive_in sv r && stopped_in sv' r) eqn:A.
+    + apply andb_true_iff in A. destruct A as [A _]. unfold alive_in in A.
+      destruct (st_runners sv r) as [ru|] eqn:Er; [|discriminate].
+      apply andb_true_iff in Ef. destruct Ef as [Ef _]. apply andb_true_iff in Ef. destruct Ef as [Ef _].
+      apply andb_true_iff in Ef. destruct Ef as [C1 _].
+      assert (Ns : r_stat ru <> Stopped).
+      { intros X. apply is_stopped_stat in X. rewrite X in A. discriminate. }
+      assert (Sx : RR.r_stop (RR.getr rx r) = false).
+      { destruct (RR.r_stop (RR.getr rx r)) eqn:S; [|reflexivity]. destruct Hc as (H1 & _). apply H1 in S. contradiction. }
+      unfold rx_ev. rewrite Sx, C1. cbn. rewrite (had_comp_coh _ _ _ _ Hc Ns). reflexivity.
+    + destruct (iev_of (RR.getr rx r) (RR.getr rx' r)) eqn:Ev; try discriminate. apply rx_ev_none. exact Ev.
+  - destruct (is_stop_label l); [discriminate|].
+    destruct (RR.step rx l) as [rx1|]; [|discriminate].
+    destruct (forallb _ _); [|discriminate].
+    rewrite events_evs in *.
+    destruct (evs _ (seq 0 (pool w))) as [|[r0 e] [|? ?]] eqn:Ee; [destruct o; [discriminate|] | | destruct e; discriminate].
+    + inversion H; subst; clear H. apply rx_ev_none. exact (evs_nil _ _ Ee r (proj2 (in_seq0 r _) Hr)).
+    + destruct (evs_single _ _ _ _ Ee) as (I0 & Ev0 & _ & Iother).
+      destruct e; try discriminate.
+      * destruct o; [discriminate|].
+        destruct (step (w_cfg w) sv (LRun r0 (OOk (w_render w r0 out)))) as [sv1|] eqn:E; [|discriminate].
+        destruct (sub_live_in sv1 r0) eqn:Sl; [|discriminate]. inversion H; subst; clear H.
+        cbn [sv_ev]. destruct (Nat.eqb r0 r) eqn:En.
+        -- apply Nat.eqb_eq in En. subst r0.
+           cbn [step] in E. destruct (st_runners sv r) as [ru|] eqn:Er; [|discriminate].
+           destruct (is_live ru) eqn:Li; [|discriminate]. inversion E; subst; clear E.
+           unfold sub_live_in in Sl. rewrite (do_run_runner _ _ _ _ Er) in Sl.
+           assert (K : r_kind ru = KSub).
+           { unfold run_runner in Sl. destruct (r_kind ru); [reflexivity|]. unfold is_live in Sl. cbn in Sl. discriminate. }
+           assert (Ns : r_stat ru <> Stopped) by (unfold is_live in Li; destruct (r_stat ru); congruence).
+           destruct (iev_pub _ _ _ Ev0) as (A1 & _). unfold rx_ev. rewrite Ev0, A1.
+           replace (negb (RR.r_stop (RR.getr rx r)) && RR.r_stop (RR.getr rx r)) with false by (destruct (RR.r_stop (RR.getr rx r)); reflexivity).
+           rewrite (had_comp_coh _ _ _ _ Hc Ns). unfold run_iface, had_comp. rewrite K. reflexivity.
+        -- apply Nat.eqb_neq in En. apply rx_ev_none. apply Iother; [apply in_seq0; exact Hr | congruence].
+      * destruct o as [oc|]; [|discriminate].
+        destruct (step (w_cfg w) sv (LRun r0 oc)) as [sv1|] eqn:E; [|discriminate].
+        destruct (failed_in sv1 r0) eqn:Fl; [|discriminate]. inversion H; subst; clear H.
+        cbn [sv_ev]. destruct (Nat.eqb r0 r) eqn:En.
+        -- apply Nat.eqb_eq in En. subst r0.
+           cbn [step] in E. destruct (st_runners sv r) as [ru|] eqn:Er; [|discriminate].
+           destruct (is_live ru) eqn:Li; [|discriminate]. inversion E; subst; clear E.
+           unfold failed_in in Fl. rewrite (do_run_runner _ _ _ _ Er) in Fl.
+           assert (St : r_stat ru = Live) by (unfold is_live in Li; destruct (r_stat ru); congruence).
+           destruct (iev_fail _ _ Ev0) as (A1 & _). unfold rx_ev. rewrite Ev0, A1.
+           replace (negb (RR.r_stop (RR.getr rx r)) && RR.r_stop (RR.getr rx r)) with false by (destruct (RR.r_stop (RR.getr rx r)); reflexivity).
+           f_equal. unfold run_iface. unfold run_runner in Fl. destruct (r_kind ru); [|reflexivity].
+           destruct oc; [cbn in Fl; discriminate | | reflexivity].
+           destruct (r_initial ru); [reflexivity|]. rewrite St in Fl. discriminate.
+        -- apply Nat.eqb_neq in En. apply rx_ev_none. apply Iother; [apply in_seq0; exact Hr | congruence].
 Qed.
